@@ -43,7 +43,7 @@ Proof.
 Qed.
 
 Lemma readys_ack j p r : readys (MAck j p :: r) = readys r. Proof. reflexivity. Qed.
-Lemma readys_ready j p t r : readys (MReady j p t :: r) = j :: readys r. Proof. reflexivity. Qed.
+Lemma readys_ready j p ok t r : readys (MReady j p ok t :: r) = j :: readys r. Proof. reflexivity. Qed.
 Lemma readys_app q m : readys (q ++ [m]) = readys q ++ readys [m].
 Proof. unfold readys. apply flat_map_app. Qed.
 
@@ -89,10 +89,12 @@ Definition unres (s : pool) (j : Z) : bool :=
   match get_job s j with Some x => negb (ready x) | None => false end.
 
 (* what is known about every job of the closed system *)
-Definition JF (j : Z) (x : job) : Prop :=
+Definition JF (bad : list Z) (j : Z) (x : job) : Prop :=
   jid x = j /\ kind x = KApply
   /\ (ready x = false -> incache x = true /\ value x = None /\ cb_succ x = 0 /\ cb_err x = 0)
-  /\ (ready x = true -> value x = Some (PValue (tag_of j)) /\ cb_succ x = 1 /\ cb_err x = 0).
+  /\ (ready x = true -> value x = Some (outcome_of bad j)
+                        /\ cb_succ x = (if task_ok bad j then 1 else 0)
+                        /\ cb_err x = (if task_ok bad j then 0 else 1)).
 
 (* ------------------------------------------------------------------ the three parent events *)
 Record same_env (s s' : pool) : Prop := {
@@ -102,11 +104,11 @@ Record same_env (s s' : pool) : Prop := {
   se_nprocs : nprocs s' = nprocs s
 }.
 
-Lemma apply_spec s s' :
+Lemma apply_spec bad s s' :
   0 <= LaxSem.value (sem s) ->
   step s (EApply None None None None) = (s', RNone) ->
   same_env s s' /\ pstate s = 0
-  /\ (exists x, jobs s' = jobs s ++ [x] /\ JF (Z.of_nat (length (jobs s))) x /\ ready x = false)
+  /\ (exists x, jobs s' = jobs s ++ [x] /\ JF bad (Z.of_nat (length (jobs s))) x /\ ready x = false)
   /\ (putlocks s = true -> 0 < LaxSem.value (sem s)
                            /\ sem s' = mk_sem (LaxSem.value (sem s) - 1) (LaxSem.bound (sem s)) (LaxSem.pending (sem s)))
   /\ (putlocks s = false -> sem s' = sem s).
@@ -128,13 +130,13 @@ Proof.
     + split; [discriminate|reflexivity].
 Qed.
 
-Definition AllJF (s : pool) : Prop := forall k x, get_job s k = Some x -> JF k x.
+Definition AllJF (bad : list Z) (s : pool) : Prop := forall k x, get_job s k = Some x -> JF bad k x.
 
-Lemma ack_spec s j p :
-  AllJF s ->
+Lemma ack_spec bad s j p :
+  AllJF bad s ->
   let s' := fst (step s (EAck j None p)) in
   same_env s s' /\ sem s' = sem s /\ length (jobs s') = length (jobs s)
-  /\ (forall k, unres s' k = unres s k) /\ AllJF s'.
+  /\ (forall k, unres s' k = unres s k) /\ AllJF bad s'.
 Proof.
   intros HJ. unfold step, do_ack.
   change (cached (with_rst (with_sigs s []) (Restart.ack (rst (with_sigs s [])))) j) with (cached s j).
@@ -167,13 +169,13 @@ Proof. unfold bump_counter. destruct (worker_pids x); [constructor; reflexivity|
 Lemma jobs_bump_counter s x : jobs (bump_counter s x) = jobs s.
 Proof. unfold bump_counter. destruct (worker_pids x); [reflexivity|]. destruct (in_pool s z); reflexivity. Qed.
 
-Lemma ready_spec s j t :
-  AllJF s -> unres s j = true -> t = tag_of j ->
-  let s' := fst (step s (EReady j None true t)) in
+Lemma ready_spec bad s j ok t :
+  AllJF bad s -> unres s j = true -> t = tag_of j -> ok = task_ok bad j ->
+  let s' := fst (step s (EReady j None ok t)) in
   same_env s s' /\ sem s' = LaxSem.release (sem s) /\ length (jobs s') = length (jobs s)
-  /\ unres s' j = false /\ (forall k, k <> j -> unres s' k = unres s k) /\ AllJF s'.
+  /\ unres s' j = false /\ (forall k, k <> j -> unres s' k = unres s k) /\ AllJF bad s'.
 Proof.
-  intros HJ Hu Ht. unfold unres in Hu. destruct (get_job s j) as [x|] eqn:Hg; [|discriminate].
+  intros HJ Hu Ht Hok. unfold unres in Hu. destruct (get_job s j) as [x|] eqn:Hg; [|discriminate].
   destruct (HJ j x Hg) as (Hid & Hk & Hnr & Hr).
   assert (Hr0 : ready x = false) by (destruct (ready x); [discriminate|reflexivity]).
   destruct (Hnr Hr0) as (Hin & Hv & Hcs & Hce).
@@ -189,8 +191,9 @@ Proof.
   { destruct (env_bump_counter (with_sigs s []) x) as [A B C D]. constructor; cbn; assumption. }
   split; [unfold s1; cbn; rewrite sem_bump_counter; reflexivity|].
   split; [rewrite len_set_job, Hjobs; reflexivity|].
-  assert (Hnew : get_job (set_job s1 j (fun x0 => fst (job_set x0 None (PValue t)))) j
-                 = Some (apply_set x (PValue t))).
+  set (pl := if ok then PValue t else PExc t).
+  assert (Hnew : get_job (set_job s1 j (fun x0 => fst (job_set x0 None pl))) j
+                 = Some (apply_set x pl)).
   { rewrite (get_set_same s1 j _ x Hg1). unfold job_set. rewrite Hk. reflexivity. }
   split; [unfold unres; rewrite Hnew; unfold apply_set; rewrite Hr0; reflexivity|].
   split.
@@ -198,7 +201,8 @@ Proof.
   - intros k y. destruct (Z.eq_dec j k) as [<-|Hne].
     + rewrite Hnew. intros H; inversion H; subst y; clear H.
       unfold JF, apply_set. rewrite Hr0. cbn. split; [exact Hid|]. split; [exact Hk|].
-      split; [intros; discriminate|]. intros _. subst t. rewrite Hcs, Hce. repeat split; lia.
+      split; [intros; discriminate|]. intros _. subst t ok. unfold pl, outcome_of.
+      rewrite Hcs, Hce. destruct (task_ok bad j); cbn; repeat split; lia.
     + rewrite get_set_other by exact Hne. rewrite Hgk. apply HJ.
 Qed.
 
@@ -251,8 +255,8 @@ Qed.
 Local Opaque step.
 Record YInv (n : nat) (y : sys) : Prop := {
   i_tok : forall j, cnt j (tokens y) = one (unres (par y) j);
-  i_job : AllJF (par y);
-  i_msg : forall j p t, In (MReady j p t) (outq y) -> t = tag_of j;
+  i_job : AllJF (bad y) (par y);
+  i_msg : forall j p ok t, In (MReady j p ok t) (outq y) -> t = tag_of j /\ ok = task_ok (bad y) j;
   i_st : pstate (par y) = 0 \/ pstate (par y) = 1;
   i_nn : 0 <= LaxSem.value (sem (par y));
   i_sem : putlocks (par y) = true -> pstate (par y) = 0 ->
@@ -284,13 +288,13 @@ Proof.
   destruct (step (par y) (EApply None None None None)) as [s' r] eqn:Est.
   destruct r; try discriminate; intros H; inversion H; subst y'; clear H.
   - (* accepted *)
-    destruct (apply_spec _ _ Hnn Est) as ([E1 E2 E3 E4] & Hp0 & (x & Hjobs & HJx & Hrx) & Hl & Hnl).
+    destruct (apply_spec (bad y) _ _ Hnn Est) as ([E1 E2 E3 E4] & Hp0 & (x & Hjobs & HJx & Hrx) & Hl & Hnl).
     set (jn := Z.of_nat (length (jobs (par y)))) in *.
     assert (Hget : forall j, get_job s' j = if j =? jn then Some x else get_job (par y) j).
     { intros j. rewrite !get_job_gj, Hjobs. apply gj_app_new. }
     assert (Hfresh : get_job (par y) jn = None) by (rewrite get_job_gj; apply gj_fresh).
-    constructor; cbn [par todo taskq inq wk outq].
-    + intros j. rewrite cnt_tokens; cbn [par todo taskq inq wk outq]. rewrite cnt_app, cnt_one.
+    constructor; cbn [par bad todo taskq inq wk outq].
+    + intros j. rewrite cnt_tokens; cbn [par bad todo taskq inq wk outq]. rewrite cnt_app, cnt_one.
       specialize (Ht j). rewrite cnt_tokens in Ht. unfold unres in *. rewrite Hget.
       destruct (Z.eqb_spec j jn) as [->|Hne].
       * rewrite Hfresh in Ht. rewrite Hrx, Z.eqb_refl. cbn in *. lia.
@@ -304,7 +308,7 @@ Proof.
       * destruct (Hl eq_refl) as [Hpos ->]. cbn. lia.
       * rewrite (Hnl eq_refl). exact Hnn.
     + rewrite E1, E2. intros Ep Hp. destruct (Hl Ep) as [Hpos ->]. specialize (Hs Ep Hp). cbn [LaxSem.value LaxSem.bound].
-      rewrite len_tokens in *. cbn [par todo taskq inq wk outq]. rewrite app_length. cbn [length]. lia.
+      rewrite len_tokens in *. cbn [par bad todo taskq inq wk outq]. rewrite app_length. cbn [length]. lia.
     + rewrite E1, Hjobs, app_length. cbn [length]. specialize (Hc0 Hp0). split; [lia|intros _; lia].
     + exact Hw.
     + destruct (putlocks (par y)) eqn:Ep.
@@ -314,7 +318,7 @@ Proof.
   - (* refused: the pool is closed, no job is created *)
     destruct (apply_refused_spec _ _ Est) as ([E1 E2 E3 E4] & Hjobs & Hsem & Hp).
     assert (Hget : forall j, get_job s' j = get_job (par y) j) by (intros j; rewrite !get_job_gj, Hjobs; reflexivity).
-    constructor; cbn [par todo taskq inq wk outq].
+    constructor; cbn [par bad todo taskq inq wk outq].
     + intros j. specialize (Ht j). unfold unres in *. rewrite Hget. exact Ht.
     + intros k0 y0. rewrite Hget. apply Hj.
     + exact Hm.
@@ -331,10 +335,10 @@ Lemma inv_put n y y' : YInv n y -> sys_step y SPut = Some y' -> YInv n y'.
 Proof.
   intros [Ht Hj Hm Hst Hnn Hs Hc Hw Hb Hcl]. cbn [sys_step].
   destruct (taskq y) as [|j r] eqn:Eq; [discriminate|]. intros H; inversion H; subst y'; clear H.
-  constructor; cbn [par todo taskq inq wk outq]; try assumption.
-  - intros j0. specialize (Ht j0). rewrite cnt_tokens in *. cbn [par todo taskq inq wk outq].
+  constructor; cbn [par bad todo taskq inq wk outq]; try assumption.
+  - intros j0. specialize (Ht j0). rewrite cnt_tokens in *. cbn [par bad todo taskq inq wk outq].
     rewrite Eq in Ht. rewrite cnt_app, cnt_one. rewrite cnt_cons in Ht. lia.
-  - intros Ep Hp. specialize (Hs Ep Hp). rewrite len_tokens in *. cbn [par todo taskq inq wk outq].
+  - intros Ep Hp. specialize (Hs Ep Hp). rewrite len_tokens in *. cbn [par bad todo taskq inq wk outq].
     rewrite Eq in Hs. rewrite app_length. cbn [length] in *. lia.
 Qed.
 
@@ -343,12 +347,12 @@ Proof.
   intros [Ht Hj Hm Hst Hnn Hs Hc Hw Hb Hcl]. cbn [sys_step].
   destruct (nth_error (wk y) i) as [[?|]|] eqn:En; try discriminate.
   destruct (inq y) as [|j r] eqn:Eq; [discriminate|]. intros H; inversion H; subst y'; clear H.
-  constructor; cbn [par todo taskq inq wk outq]; try assumption.
-  - intros j0. specialize (Ht j0). rewrite cnt_tokens in *. cbn [par todo taskq inq wk outq].
+  constructor; cbn [par bad todo taskq inq wk outq]; try assumption.
+  - intros j0. specialize (Ht j0). rewrite cnt_tokens in *. cbn [par bad todo taskq inq wk outq].
     rewrite Eq in Ht. rewrite cnt_cons in Ht. rewrite readys_app. cbn [readys flat_map]. rewrite app_nil_r.
     pose proof (cnt_somes_upd j0 (Some j) _ _ _ En) as Hu. cbn [ocnt] in Hu. lia.
-  - intros j0 p t Hin. apply in_app_or in Hin. destruct Hin as [Hin|[Hin|[]]]; [eauto|discriminate].
-  - intros Ep Hp. specialize (Hs Ep Hp). rewrite len_tokens in *. cbn [par todo taskq inq wk outq].
+  - intros j0 p ok t Hin. apply in_app_or in Hin. destruct Hin as [Hin|[Hin|[]]]; [eauto|discriminate].
+  - intros Ep Hp. specialize (Hs Ep Hp). rewrite len_tokens in *. cbn [par bad todo taskq inq wk outq].
     rewrite Eq in Hs. rewrite readys_app. cbn [readys flat_map]. rewrite app_nil_r.
     pose proof (len_somes_upd (Some j) _ _ _ En) as Hu. cbn [olen length] in *. lia.
   - apply upd_nth_nonempty. exact Hw.
@@ -359,13 +363,13 @@ Proof.
   intros [Ht Hj Hm Hst Hnn Hs Hc Hw Hb Hcl]. cbn [sys_step].
   destruct (nth_error (wk y) i) as [[j|]|] eqn:En; try discriminate.
   intros H; inversion H; subst y'; clear H.
-  constructor; cbn [par todo taskq inq wk outq]; try assumption.
-  - intros j0. specialize (Ht j0). rewrite cnt_tokens in *. cbn [par todo taskq inq wk outq].
+  constructor; cbn [par bad todo taskq inq wk outq]; try assumption.
+  - intros j0. specialize (Ht j0). rewrite cnt_tokens in *. cbn [par bad todo taskq inq wk outq].
     rewrite readys_app. cbn [readys flat_map]. rewrite app_nil_r, cnt_app, cnt_one.
     pose proof (cnt_somes_upd j0 None _ _ _ En) as Hu. cbn [ocnt] in Hu. lia.
-  - intros j0 p t Hin. apply in_app_or in Hin. destruct Hin as [Hin|[Hin|[]]]; [eauto|].
-    inversion Hin; reflexivity.
-  - intros Ep Hp. specialize (Hs Ep Hp). rewrite len_tokens in *. cbn [par todo taskq inq wk outq].
+  - intros j0 p ok t Hin. apply in_app_or in Hin. destruct Hin as [Hin|[Hin|[]]]; [eauto|].
+    inversion Hin; subst. split; reflexivity.
+  - intros Ep Hp. specialize (Hs Ep Hp). rewrite len_tokens in *. cbn [par bad todo taskq inq wk outq].
     rewrite readys_app. cbn [readys flat_map]. rewrite app_nil_r, app_length.
     pose proof (len_somes_upd None _ _ _ En) as Hu. cbn [olen length] in *. lia.
   - apply upd_nth_nonempty. exact Hw.
@@ -374,37 +378,38 @@ Qed.
 Lemma inv_recv n y y' : YInv n y -> sys_step y SRecv = Some y' -> YInv n y'.
 Proof.
   intros [Ht Hj Hm Hst Hnn Hs Hc Hw Hb Hcl]. cbn [sys_step].
-  destruct (outq y) as [|[j p|j p t] r] eqn:Eq; [discriminate| |]; intros H; inversion H; subst y'; clear H.
-  - destruct (ack_spec (par y) j p Hj) as ([E1 E2 E3 E4] & Esem & Elen & Hun & HJ').
-    constructor; cbn [par todo taskq inq wk outq]; try assumption.
-    + intros j0. specialize (Ht j0). rewrite cnt_tokens in *. cbn [par todo taskq inq wk outq].
+  destruct (outq y) as [|[j p|j p ok t] r] eqn:Eq; [discriminate| |]; intros H; inversion H; subst y'; clear H.
+  - destruct (ack_spec (bad y) (par y) j p Hj) as ([E1 E2 E3 E4] & Esem & Elen & Hun & HJ').
+    constructor; cbn [par bad todo taskq inq wk outq]; try assumption.
+    + intros j0. specialize (Ht j0). rewrite cnt_tokens in *. cbn [par bad todo taskq inq wk outq].
       rewrite Eq in Ht. rewrite ?readys_ack, ?readys_ready in Ht. rewrite Hun. exact Ht.
-    + intros j0 p0 t Hin. apply (Hm j0 p0 t). right. exact Hin.
+    + intros j0 p0 ok0 t Hin. apply (Hm j0 p0 ok0 t). right. exact Hin.
     + rewrite E1. exact Hst.
     + rewrite Esem. exact Hnn.
-    + rewrite E1, E2, Esem. intros Ep Hp. specialize (Hs Ep Hp). rewrite len_tokens in *. cbn [par todo taskq inq wk outq].
+    + rewrite E1, E2, Esem. intros Ep Hp. specialize (Hs Ep Hp). rewrite len_tokens in *. cbn [par bad todo taskq inq wk outq].
       rewrite Eq in Hs. rewrite ?readys_ack, ?readys_ready in Hs. exact Hs.
     + rewrite E1, Elen. exact Hc.
     + rewrite Esem. exact Hb.
     + rewrite E1, Esem. exact Hcl.
-  - assert (Htag : t = tag_of j) by (apply (Hm j p t); left; reflexivity).
+  - assert (Htag : t = tag_of j /\ ok = task_ok (bad y) j) by (apply (Hm j p ok t); left; reflexivity).
+    destruct Htag as [Htag Hok].
     assert (Hu : unres (par y) j = true).
     { specialize (Ht j). rewrite cnt_tokens, Eq in Ht. rewrite ?readys_ack, ?readys_ready in Ht.
       rewrite cnt_cons, Z.eqb_refl in Ht. destruct (unres (par y) j); [reflexivity|cbn in Ht; lia]. }
-    destruct (ready_spec (par y) j t Hj Hu Htag) as ([E1 E2 E3 E4] & Esem & Elen & Hun & Hoth & HJ').
+    destruct (ready_spec (bad y) (par y) j ok t Hj Hu Htag Hok) as ([E1 E2 E3 E4] & Esem & Elen & Hun & Hoth & HJ').
     assert (Hlen : (1 <= length (tokens y))%nat).
     { rewrite len_tokens, Eq, readys_ready. cbn [length]. lia. }
-    constructor; cbn [par todo taskq inq wk outq]; try assumption.
-    + intros j0. specialize (Ht j0). rewrite cnt_tokens in *. cbn [par todo taskq inq wk outq].
+    constructor; cbn [par bad todo taskq inq wk outq]; try assumption.
+    + intros j0. specialize (Ht j0). rewrite cnt_tokens in *. cbn [par bad todo taskq inq wk outq].
       rewrite Eq in Ht. rewrite ?readys_ack, ?readys_ready in Ht. rewrite cnt_cons in Ht.
       destruct (Z.eqb_spec j j0) as [<-|Hne].
       * rewrite Hun. rewrite Hu in Ht. cbn [one] in *. lia.
       * rewrite Hoth by congruence. cbn [one] in Ht. lia.
-    + intros j0 p0 t0 Hin. apply (Hm j0 p0 t0). right. exact Hin.
+    + intros j0 p0 ok0 t0 Hin. apply (Hm j0 p0 ok0 t0). right. exact Hin.
     + rewrite E1. exact Hst.
     + rewrite Esem. unfold LaxSem.release. destruct (_ <? _); cbn; lia.
     + rewrite E1, E2, Esem. intros Ep Hp. specialize (Hs Ep Hp). unfold LaxSem.release.
-      rewrite len_tokens in *. cbn [par todo taskq inq wk outq]. rewrite Eq in Hs.
+      rewrite len_tokens in *. cbn [par bad todo taskq inq wk outq]. rewrite Eq in Hs.
       rewrite ?readys_ack, ?readys_ready in Hs. cbn [length] in Hs.
       destruct (LaxSem.value (sem (par y)) <? LaxSem.bound (sem (par y))) eqn:El; cbn; lia.
     + rewrite E1, Elen. exact Hc.
@@ -420,7 +425,7 @@ Proof.
   destruct (close_spec (par y) Hp0) as (E1 & Ejobs & E2 & E3 & Esem).
   assert (Hget : forall j, get_job (fst (step (par y) EClose)) j = get_job (par y) j)
     by (intros j; rewrite !get_job_gj, Ejobs; reflexivity).
-  constructor; cbn [par todo taskq inq wk outq].
+  constructor; cbn [par bad todo taskq inq wk outq].
   - intros j. specialize (Ht j). unfold unres in *. rewrite Hget. exact Ht.
   - intros k0 y0. rewrite Hget. apply Hj.
   - exact Hm.
@@ -450,20 +455,20 @@ Qed.
 Lemma somes_repeat_none k : somes (repeat None k) = [].
 Proof. induction k as [|k IH]; cbn; [reflexivity|exact IH]. Qed.
 
-Lemma inv_init c n : 1 <= c_n c -> YInv n (sinit c n).
+Lemma inv_init c n bd : 1 <= c_n c -> YInv n (sinit_bad c n bd).
 Proof.
-  intros Hn. unfold sinit, init.
+  intros Hn. unfold sinit_bad, init.
   match goal with |- context [start_n ?k ?i ?s0] =>
     destruct (start_n_frame k i s0) as (A & B & C & D); remember (start_n k i s0) as s eqn:Es end.
   cbn [jobs sem pstate putlocks] in A, B, C, D. clear Es.
   assert (Hg : forall j, get_job s j = None).
   { intros j. rewrite get_job_gj, A. unfold gj. destruct (j <? 0); [reflexivity|]. destruct (Z.to_nat j); reflexivity. }
-  assert (Htk : forall k, tokens (mksys s n [] [] (repeat None k) []) = []).
+  assert (Htk : forall k, tokens (mksys s bd n [] [] (repeat None k) []) = []).
   { intros k. unfold tokens. cbn [taskq inq wk outq]. rewrite somes_repeat_none. reflexivity. }
-  constructor; cbn [par todo taskq inq wk outq]; rewrite ?Htk.
+  constructor; cbn [par bad todo taskq inq wk outq]; rewrite ?Htk.
   - intros j. unfold unres. rewrite Hg. reflexivity.
   - intros k x. rewrite Hg. discriminate.
-  - intros j p t [].
+  - intros j p ok t [].
   - left. exact C.
   - rewrite B. cbn. lia.
   - intros _ _. rewrite B. cbn. lia.
@@ -481,21 +486,21 @@ Proof.
     destruct (step (par y) (EApply None None None None)) as [s' r] eqn:Est.
     assert (Hp : pstate s' = pstate (par y)) by (rewrite <- (pstate_apply (par y)), Est; reflexivity).
     destruct r; try discriminate; intros H; inversion H; subst y'; clear H;
-      cbn [par todo taskq inq wk outq]; rewrite Hp, ?app_length; cbn [length]; lia.
+      cbn [par bad todo taskq inq wk outq]; rewrite Hp, ?app_length; cbn [length]; lia.
   - destruct (taskq y) as [|j r]; [discriminate|]. intros H; inversion H; subst y'; clear H.
-    cbn [par todo taskq inq wk outq]. rewrite app_length. cbn [length]. lia.
+    cbn [par bad todo taskq inq wk outq]. rewrite app_length. cbn [length]. lia.
   - destruct (nth_error (wk y) i) as [[?|]|] eqn:En; try discriminate.
     destruct (inq y) as [|j r]; [discriminate|]. intros H; inversion H; subst y'; clear H.
-    cbn [par todo taskq inq wk outq]. rewrite app_length. cbn [length].
+    cbn [par bad todo taskq inq wk outq]. rewrite app_length. cbn [length].
     pose proof (len_somes_upd (Some j) _ _ _ En) as Hu. cbn [olen] in Hu. lia.
   - destruct (nth_error (wk y) i) as [[j|]|] eqn:En; try discriminate.
     intros H; inversion H; subst y'; clear H.
-    cbn [par todo taskq inq wk outq]. rewrite app_length. cbn [length].
+    cbn [par bad todo taskq inq wk outq]. rewrite app_length. cbn [length].
     pose proof (len_somes_upd None _ _ _ En) as Hu. cbn [olen] in Hu. lia.
   - destruct (outq y) as [|[j p|j p t] r]; [discriminate| |]; intros H; inversion H; subst y'; clear H;
       cbn [par todo taskq inq wk outq length]; rewrite ?pstate_ack, ?pstate_ready; lia.
   - destruct (pstate (par y) =? 0) eqn:Ep0; [|discriminate]. intros H; inversion H; subst y'; clear H.
-    cbn [par todo taskq inq wk outq].
+    cbn [par bad todo taskq inq wk outq].
     destruct (close_spec (par y)) as (E1 & _); [lia|]. rewrite E1. cbn. lia.
 Qed.
 
@@ -555,7 +560,7 @@ Qed.
 
 (* ------------------------------------------------------------------ reachable states *)
 Inductive sreach (c : config) (n : nat) : sys -> Prop :=
-| sr_init : sreach c n (sinit c n)
+| sr_init bd : sreach c n (sinit_bad c n bd)
 | sr_step y a y' : sreach c n y -> sys_step y a = Some y' -> sreach c n y'.
 
 Theorem sreach_inv c n y : 1 <= c_n c -> sreach c n y -> YInv n y.
@@ -581,9 +586,9 @@ Proof.
   - destruct (nth_error (wk y) i) as [[?|]|]; try discriminate. destruct (inq y); [discriminate|].
     inversion Hs; subst y'. exists tr. exact IH.
   - destruct (nth_error (wk y) i) as [[?|]|]; try discriminate. inversion Hs; subst y'. exists tr. exact IH.
-  - destruct (outq y) as [|[j p|j p t] r]; [discriminate| |]; inversion Hs; subst y'; cbn [par].
+  - destruct (outq y) as [|[j p|j p ok t] r]; [discriminate| |]; inversion Hs; subst y'; cbn [par].
     + exists (tr ++ [EAck j None p]). rewrite run_snoc, <- IH. reflexivity.
-    + exists (tr ++ [EReady j None true t]). rewrite run_snoc, <- IH. reflexivity.
+    + exists (tr ++ [EReady j None ok t]). rewrite run_snoc, <- IH. reflexivity.
   - destruct (pstate (par y) =? 0); [|discriminate]. inversion Hs; subst y'; cbn [par].
     exists (tr ++ [EClose]). rewrite run_snoc, <- IH. reflexivity.
 Qed.
@@ -595,23 +600,25 @@ Proof.
   - destruct (sys_step y a) as [y1|] eqn:E; [|discriminate]. apply IH. eapply sr_step; eauto.
 Qed.
 
-Lemma measure_init c n : measure (sinit c n) = (6 * n + 1)%nat.
+Lemma measure_init c n bd : measure (sinit_bad c n bd) = (6 * n + 1)%nat.
 Proof.
-  unfold measure, work, sinit. cbn [par todo taskq inq wk outq]. rewrite somes_repeat_none. cbn [length].
+  unfold measure, work, sinit_bad. cbn [par bad todo taskq inq wk outq]. rewrite somes_repeat_none. cbn [length].
   unfold init. match goal with |- context [start_n ?k ?i ?s0] => destruct (start_n_frame k i s0) as (_ & _ & C & _) end.
   cbn [pstate] in C. rewrite C. cbn. lia.
 Qed.
 
 (* no schedule of the closed system is longer than six steps per job, plus the close() call *)
-Theorem every_schedule_is_short c n sched y :
-  srun (sinit c n) sched = Some y -> (length sched <= 6 * n + 1)%nat.
+Theorem every_schedule_is_short c n bd sched y :
+  srun (sinit_bad c n bd) sched = Some y -> (length sched <= 6 * n + 1)%nat.
 Proof. intros H. pose proof (schedules_are_finite _ _ _ H) as Hm. rewrite measure_init in Hm. lia. Qed.
 
 (* every job that exists is resolved, with its own result, exactly once; nothing is queued *)
 Definition all_resolved (y : sys) : Prop :=
   (forall j, 0 <= j < Z.of_nat (length (jobs (par y))) ->
      exists x, get_job (par y) j = Some x /\ ready x = true
-               /\ value x = Some (PValue (tag_of j)) /\ cb_succ x = 1 /\ cb_err x = 0)
+               /\ value x = Some (outcome_of (bad y) j)
+               /\ cb_succ x = (if task_ok (bad y) j then 1 else 0)
+               /\ cb_err x = (if task_ok (bad y) j then 0 else 1))
   /\ todo y = 0%nat /\ taskq y = [] /\ inq y = [] /\ outq y = [] /\ somes (wk y) = [].
 
 Lemma done_at_zero n y : YInv n y -> work y = 0%nat ->
@@ -675,8 +682,8 @@ Qed.
 
 (* every maximal schedule from the start ends closed, with every job that was accepted resolved,
    within 6 n + 1 steps *)
-Theorem every_maximal_schedule_completes c n sched y :
-  1 <= c_n c -> srun (sinit c n) sched = Some y -> (forall a, sys_step y a = None) ->
+Theorem every_maximal_schedule_completes c n bd sched y :
+  1 <= c_n c -> srun (sinit_bad c n bd) sched = Some y -> (forall a, sys_step y a = None) ->
   all_resolved y /\ pstate (par y) = 1 /\ (length (jobs (par y)) <= n)%nat /\ (length sched <= 6 * n + 1)%nat.
 Proof.
   intros Hn Hrun Hstuck.
@@ -689,12 +696,34 @@ Qed.
 
 (* jobs submitted before close() keep their results; the ones after it are refused and create
    nothing: with close() called after the last submission all n jobs exist and are resolved *)
-Theorem close_keeps_results c n sched y :
-  1 <= c_n c -> srun (sinit c n) sched = Some y -> (forall a, sys_step y a = None) ->
+Theorem close_keeps_results c n bd sched y :
+  1 <= c_n c -> srun (sinit_bad c n bd) sched = Some y -> (forall a, sys_step y a = None) ->
   forall j, 0 <= j < Z.of_nat (length (jobs (par y))) ->
-    exists x, get_job (par y) j = Some x /\ ready x = true /\ value x = Some (PValue (tag_of j))
-              /\ cb_succ x = 1 /\ cb_err x = 0.
-Proof. intros Hn Hr Hs. exact (proj1 (proj1 (every_maximal_schedule_completes c n sched y Hn Hr Hs))). Qed.
+    exists x, get_job (par y) j = Some x /\ ready x = true /\ value x = Some (outcome_of (bad y) j)
+              /\ cb_succ x = (if task_ok (bad y) j then 1 else 0)
+              /\ cb_err x = (if task_ok (bad y) j then 0 else 1).
+Proof. intros Hn Hr Hs. exact (proj1 (proj1 (every_maximal_schedule_completes c n bd sched y Hn Hr Hs))). Qed.
+
+(* the set of raising tasks never changes *)
+Lemma step_bad y a y' : sys_step y a = Some y' -> bad y' = bad y.
+Proof.
+  destruct a; cbn [sys_step].
+  - destruct (todo y); [discriminate|]. destruct (step (par y) (EApply None None None None)) as [s' r].
+    destruct r; try discriminate; intros H; inversion H; reflexivity.
+  - destruct (taskq y); [discriminate|]. intros H; inversion H; reflexivity.
+  - destruct (nth_error (wk y) i) as [[?|]|]; try discriminate. destruct (inq y); [discriminate|].
+    intros H; inversion H; reflexivity.
+  - destruct (nth_error (wk y) i) as [[?|]|]; try discriminate. intros H; inversion H; reflexivity.
+  - destruct (outq y) as [|[j p|j p ok t] r]; [discriminate| |]; intros H; inversion H; reflexivity.
+  - destruct (pstate (par y) =? 0); [|discriminate]. intros H; inversion H; reflexivity.
+Qed.
+
+Lemma srun_bad : forall sched y y', srun y sched = Some y' -> bad y' = bad y.
+Proof.
+  induction sched as [|a r IH]; intros y y'; cbn [srun]; [intros H; inversion H; reflexivity|].
+  destruct (sys_step y a) as [y1|] eqn:E; [|discriminate]. intros H.
+  rewrite (IH _ _ H). eapply step_bad; eauto.
+Qed.
 
 (* non-vacuity: a concrete maximal schedule, evaluated *)
 Example closed_system_runs :
@@ -731,3 +760,12 @@ Theorem all_slots_back c n y :
 Proof.
   intros Hn Hr Hs Hp. exact (proj2 (proj2 (proj2 (completion c n y Hn Hr Hs)) Hp)).
 Qed.
+
+(* non-vacuity with a raising task: job 1 fails with its own exception, error callback once *)
+Example closed_system_with_a_raising_task :
+  let c := mkcfg 2 None None None None 1 false false in
+  let r := auto_run 100 [1;2;4;5;1;2;4;5;1;2;4;5;1;2;4;5;1;2;4;5;1;2;4;5;1;2;4;5]%nat (sinit_bad c 3 [1]) in
+  srun (sinit_bad c 3 [1]) (snd r) = Some (fst r) /\ work (fst r) = 0%nat
+  /\ map (fun x => (value x, cb_succ x, cb_err x)) (jobs (par (fst r)))
+     = [(Some (PValue 0), 1, 0); (Some (PExc 1), 0, 1); (Some (PValue 2), 1, 0)].
+Proof. vm_compute. auto. Qed.
